@@ -6,6 +6,9 @@ package main
 import (
 	"encoding/json"
 	"fmt"
+	"go/ast"
+	"go/token"
+	"go/types"
 	"os"
 	"path/filepath"
 	"sort"
@@ -245,4 +248,168 @@ func runOtherArch(root string, p *Property, kf *KnownFile) *ArchRun {
 	}
 	a.Detail = append(a.Detail, res.Undecided...)
 	return a
+}
+
+// ---------------------------------------------------------------------------
+// Rename sweep (development aid and part of the thorough tier's neutral
+// variants): for every function of the packages a property is anchored in,
+// rename the receiver, parameters, results and locals of that function and
+// check that the property's report does not change.  A rule that fires on such
+// a variant keys on spelling rather than on meaning.
+
+type RenameOutcome struct {
+	Func    string   `json:"func"`
+	Flagged []string `json:"flagged_rules"`
+}
+
+var sweepPkgs = []string{"exec", "", "frame", "sliceio", "sortio", "metrics", "internal/slicecache", "internal/zero"}
+
+func renameVariant(pr *Prog, fn *Func) ([]byte, string, bool) {
+	if fn.Decl == nil || fn.Body == nil {
+		return nil, "", false
+	}
+	pk := fn.Pkg
+	file := pr.Fset.Position(fn.Decl.Pos()).Filename
+	src := pr.Src[file]
+	type edit struct {
+		off, n int
+		name   string
+	}
+	var edits []edit
+	inDecl := func(p token.Pos) bool { return fn.Decl.Pos() <= p && p < fn.Decl.End() }
+	renamed := map[types.Object]string{}
+	// objects with an explicit defining identifier (not the implicit per-clause
+	// objects of a type switch)
+	explicit := map[types.Object]bool{}
+	ast.Inspect(fn.Decl, func(n ast.Node) bool {
+		if id, ok := n.(*ast.Ident); ok {
+			if d := pk.Info.Defs[id]; d != nil {
+				explicit[d] = true
+			}
+		}
+		return true
+	})
+	nameOf := func(o types.Object) (string, bool) {
+		v, ok := o.(*types.Var)
+		if !ok || v.IsField() || !inDecl(v.Pos()) || v.Name() == "_" || !explicit[o] {
+			return "", false
+		}
+		if n, ok := renamed[o]; ok {
+			return n, true
+		}
+		n := v.Name() + "R"
+		renamed[o] = n
+		return n, true
+	}
+	ast.Inspect(fn.Decl, func(n ast.Node) bool {
+		id, ok := n.(*ast.Ident)
+		if !ok {
+			return true
+		}
+		var o types.Object
+		if d, ok := pk.Info.Defs[id]; ok && d != nil {
+			o = d
+		} else if u, ok := pk.Info.Uses[id]; ok {
+			o = u
+		}
+		if o == nil {
+			return true
+		}
+		if nn, ok := nameOf(o); ok {
+			edits = append(edits, edit{pr.Fset.Position(id.Pos()).Offset, len(id.Name), nn})
+		}
+		return true
+	})
+	if len(edits) == 0 {
+		return nil, "", false
+	}
+	sort.Slice(edits, func(i, j int) bool { return edits[i].off > edits[j].off })
+	out := append([]byte{}, src...)
+	last := -1
+	for _, e := range edits {
+		if e.off == last {
+			continue
+		}
+		last = e.off
+		out = append(out[:e.off], append([]byte(e.name), out[e.off+e.n:]...)...)
+	}
+	return out, file, true
+}
+
+func runRenameSweep(deps *Deps, base *Prog, p *Property, kf *KnownFile, verbose bool) []RenameOutcome {
+	baseRes := runProperty(base, p, kf)
+	baseSet := findingSet(baseRes)
+	// identifiers renamed change obligation keys that embed expressions; compare by rule only
+	baseRules := map[string]int{}
+	for k := range baseSet {
+		baseRules[k[:strings.Index(k, "|")]]++
+	}
+	var out []RenameOutcome
+	n := 0
+	for _, rel := range sweepPkgs {
+		for _, fn := range base.FuncsIn(rel) {
+			if fn.Decl == nil {
+				continue
+			}
+			if only := os.Getenv("BSVET_SWEEP_ONLY"); only != "" {
+				hit := false
+				for _, o := range strings.Split(only, ",") {
+					if o != "" && strings.Contains(fn.QName(), o) {
+						hit = true
+					}
+				}
+				if !hit {
+					continue
+				}
+			}
+			src, file, ok := renameVariant(base, fn)
+			if !ok {
+				continue
+			}
+			n++
+			flowCache = map[*Func]*Flow{}
+			vp, err := deps.check(map[string][]byte{file: src})
+			if err != nil || len(vp.extraTypeErrs()) > 0 {
+				msg := "does not type-check"
+				if err == nil {
+					msg += ": " + vp.extraTypeErrs()[0].Msg
+				}
+				out = append(out, RenameOutcome{Func: fn.QName(), Flagged: []string{msg}})
+				continue
+			}
+			res := runProperty(vp, p, kf)
+			rules := map[string]int{}
+			for k := range findingSet(res) {
+				rules[k[:strings.Index(k, "|")]]++
+			}
+			var flagged []string
+			for r, c := range rules {
+				if c > baseRules[r] {
+					flagged = append(flagged, r)
+				}
+			}
+			// known findings may lose their match when keys embed renamed expressions
+			if len(res.Known) < len(baseRes.Known) && len(flagged) == 0 {
+				flagged = append(flagged, "known-finding-key-changed")
+			}
+			sort.Strings(flagged)
+			if len(flagged) > 0 {
+				out = append(out, RenameOutcome{Func: fn.QName(), Flagged: flagged})
+				if verbose {
+					for _, f := range res.Violations {
+						fmt.Printf("    rename %s -> %s %s: %s\n", fn.QName(), f.Rule, f.Key, f.Msg)
+					}
+					for _, u := range res.Undecided {
+						fmt.Printf("    rename %s -> undecided %s\n", fn.QName(), u)
+					}
+				}
+			}
+		}
+	}
+	flowCache = map[*Func]*Flow{}
+	fmt.Printf("  rename sweep: %d functions renamed one at a time, %d changed the report\n", n, len(out))
+	for _, o := range out {
+		fmt.Printf("    %-55s %v\n", o.Func, o.Flagged)
+	}
+	return out
 }
